@@ -354,6 +354,16 @@ impl EnfWorld {
                     }
                     out
                 }
+                "e.enfx" => {
+                    let mut out = String::new();
+                    for r in f[5].split(';') {
+                        let vals: Vec<Dynamic> = if r == "|" { vec![] } else { r.split(',').map(parse_val).collect() };
+                        let ctx = EnforceContext { r_type: f[1].to_string(), p_type: f[2].to_string(), e_type: f[3].to_string(), m_type: f[4].to_string() };
+                        let res = catch(|| with_e!(&*e, x => x.enforce_with_context(ctx, vals)));
+                        out.push(out_c(res));
+                    }
+                    out
+                }
                 "e.pol" => format!("{} {}", enc_lists(&with_e!(&*e, x => x.get_all_policy())), enc_lists(&with_e!(&*e, x => x.get_all_grouping_policy()))),
                 "e.get" => enc_lists(&with_e!(&*e, x => x.get_model().get_policy(f[1], f[2]))),
                 "e.has" => bool_s(with_e!(&*e, x => x.get_model().has_policy(f[1], f[2], sv(f[3])))).to_string(),
@@ -369,6 +379,7 @@ impl EnfWorld {
                     v.sort_by_key(|r| enc_list(r));
                     enc_lists(&v)
                 }
+                "e.iusers" => enc_list(&sorted(rt.block_on(async { with_e!(&*e, x => x.get_implicit_users_for_permission(sv(f[1])).await) }))),
                 "e.filtered" => bool_s(with_e!(&*e, x => x.is_filtered())).to_string(),
                 "e.events" => {
                     let mut ev = events.lock();
